@@ -716,8 +716,6 @@ def r183_running(P, u, rep, F, rule='R18.3'):
                            'havoc_globals': sorted(hg.items()), 'inner_limit': 1, 'cut_pred': lambda s: s.id == loop.id})
     paths = it.explore(fn, lambda ctx: [Obj('File', lazy=True, label='file')], max_paths=4000)
     paths = [(c, o) for c, o in paths if feasible(c)]
-    for g in sorted(set(wr_glob) & set(hg)):
-        rep.undecided(rule, base + ':shape', 'a token scanner called by the loop assigns the file-scope variable %s: its effect on the line count is not followed' % g, where=W)
     # the counter: the loop variable the stamps are made of
     cvs = set()
     n_it = n_exit = n_stamp = n_lf = 0
@@ -736,6 +734,8 @@ def r183_running(P, u, rep, F, rule='R18.3'):
         rep.undecided(rule, base + ':shape', 'the line numbers stored inside the scanning loop are not made of exactly one loop variable (%s)' % (sorted(cvs) or 'none'), where=W)
         return
     cv = cvs.pop()
+    if cv.startswith('g:') and cv[2:] in wr_glob:
+        rep.undecided(rule, base + ':shape', 'a token scanner called by the loop assigns the line counter %s: its effect on the line count is not followed' % cv[2:], where=W)
     first_path = True
     for ctx, out in paths:
         le, lh = first(ctx, 'loop_entry'), first(ctx, 'loop_head')
